@@ -26,6 +26,11 @@ def runs(tier):
     out.append(dict(name='mmr', constants=dict(base, Scenarios={'chain'}, Ops={'MatMul'}, RanksS={1, 2}, KindPairs={('real', 'real')})))
     out.append(dict(name='mmc', constants=dict(base, Scenarios={'chain'}, Ops={'MatMul'}, RanksS={1, 2}, Vias={'dot'},
                                                KindPairs={('complex', 'complex')})))
+    # mixed dtypes inside one train (first core real / only the last core complex)
+    out.append(dict(name='unarymix', constants=dict(base, Scenarios={'single'}, Ops={'Full', 'Norm2', 'Conj', 'SMul', 'Transpose', 'Copy'},
+                                                    RanksS={2}, Lean=True, KindPairs={('mixed1', 'mixed1'), ('mixedL', 'mixedL')})))
+    out.append(dict(name='mmmix', constants=dict(base, Scenarios={'chain'}, Ops={'MatMul'}, RanksS={2}, Lean=True,
+                                                 KindPairs={('mixed1', 'mixedL'), ('mixedL', 'real')})))
     out.append(dict(name='norm1', constants=dict(base, Scenarios={'single'}, Ops={'Norm1', 'Norm2'}, KindPairs={('pos', 'pos')},
                                                  Seeds={1, 2})))
     out.append(dict(name='lin', constants=dict(base, RanksS={1, 2}, Scenarios={'lin'}, Ops={'Residual'},
